@@ -42,6 +42,8 @@ struct Acct {
     pendings: AtomicU32,
     wakes_mid_poll: AtomicU32,
     in_poll: AtomicBool,
+    /// drops of values / children that were never created (bad canary or index)
+    bogus: AtomicU32,
 }
 
 impl Acct {
@@ -55,6 +57,7 @@ impl Acct {
             pendings: AtomicU32::new(0),
             wakes_mid_poll: AtomicU32::new(0),
             in_poll: AtomicBool::new(false),
+            bogus: AtomicU32::new(0),
         })
     }
     fn note(&self, x: u64) {
@@ -66,19 +69,45 @@ impl Acct {
     }
 }
 
+/// Per-execution context. Shuttle runs every task of an execution as a coroutine on the OS thread that
+/// called `Runner::run`, so an OS thread-local is shared by poller and producers of one execution.
+/// Handles given to the code under test (children, values) are plain integers: a variant of the crate
+/// that drops one twice or "drops" bytes it never wrote yields a clean report, not heap corruption.
+struct Ctx {
+    acct: Arc<Acct>,
+    chans: Vec<Sh>,
+}
+thread_local! {
+    static CUR: std::cell::RefCell<Option<Ctx>> = const { std::cell::RefCell::new(None) };
+}
+fn cur_acct() -> Arc<Acct> {
+    CUR.with(|c| c.borrow().as_ref().expect("no context").acct.clone())
+}
+fn cur_chan(i: usize) -> Sh {
+    CUR.with(|c| c.borrow().as_ref().expect("no context").chans[i].clone())
+}
+
 struct Tracked {
     id: u32,
-    acct: Arc<Acct>,
+    canary: u32,
+}
+fn canary(id: u32) -> u32 {
+    id.wrapping_mul(0x9E37_79B1) ^ 0x5EED_F00D
 }
 impl Tracked {
     fn new(id: u32, acct: &Arc<Acct>) -> Tracked {
         acct.val_created[id as usize].fetch_add(1, Ordering::Relaxed);
-        Tracked { id, acct: acct.clone() }
+        Tracked { id, canary: canary(id) }
     }
 }
 impl Drop for Tracked {
     fn drop(&mut self) {
-        self.acct.val_dropped[self.id as usize].fetch_add(1, Ordering::Relaxed);
+        let a = cur_acct();
+        if self.canary != canary(self.id) || self.id as usize >= MAXV {
+            a.bogus.fetch_add(1, Ordering::Relaxed);
+        } else {
+            a.val_dropped[self.id as usize].fetch_add(1, Ordering::Relaxed);
+        }
     }
 }
 impl std::fmt::Debug for Tracked {
@@ -106,13 +135,19 @@ type Sh = Arc<Mutex<Chan>>;
 
 struct ChanFut {
     idx: usize,
-    ch: Sh,
-    acct: Arc<Acct>,
     finished: bool,
 }
 impl Drop for ChanFut {
     fn drop(&mut self) {
-        self.acct.child_drops[self.idx].fetch_add(1, Ordering::Relaxed);
+        let a = cur_acct();
+        match a.child_drops.get(self.idx) {
+            Some(c) => {
+                c.fetch_add(1, Ordering::Relaxed);
+            }
+            None => {
+                a.bogus.fetch_add(1, Ordering::Relaxed);
+            }
+        }
     }
 }
 fn store_waker(g: &mut Chan, cx: &Context<'_>) {
@@ -132,13 +167,15 @@ impl Future for ChanFut {
         if self.finished {
             panic!("ORACLE c03.mt_repoll: child {} polled again after it returned Ready", self.idx);
         }
-        self.acct.child_polls[self.idx].fetch_add(1, Ordering::Relaxed);
-        let mut g = self.ch.lock().unwrap();
+        let acct = cur_acct();
+        acct.child_polls[self.idx].fetch_add(1, Ordering::Relaxed);
+        let ch = cur_chan(self.idx);
+        let mut g = ch.lock().unwrap();
         if g.done {
             let err = g.err;
             drop(g);
             self.finished = true;
-            let v = Tracked::new(vid(self.idx, 0), &self.acct);
+            let v = Tracked::new(vid(self.idx, 0), &acct);
             Poll::Ready(if err { Err(v) } else { Ok(v) })
         } else {
             store_waker(&mut g, cx);
@@ -160,14 +197,19 @@ impl Future for OkFut {
 
 struct ChanStream {
     idx: usize,
-    ch: Sh,
-    acct: Arc<Acct>,
-    seq: usize,
     finished: bool,
 }
 impl Drop for ChanStream {
     fn drop(&mut self) {
-        self.acct.child_drops[self.idx].fetch_add(1, Ordering::Relaxed);
+        let a = cur_acct();
+        match a.child_drops.get(self.idx) {
+            Some(c) => {
+                c.fetch_add(1, Ordering::Relaxed);
+            }
+            None => {
+                a.bogus.fetch_add(1, Ordering::Relaxed);
+            }
+        }
     }
 }
 impl Stream for ChanStream {
@@ -176,12 +218,13 @@ impl Stream for ChanStream {
         if self.finished {
             panic!("ORACLE c03.mt_repoll: stream {} polled again after it returned None", self.idx);
         }
-        self.acct.child_polls[self.idx].fetch_add(1, Ordering::Relaxed);
-        let mut g = self.ch.lock().unwrap();
+        let acct = cur_acct();
+        acct.child_polls[self.idx].fetch_add(1, Ordering::Relaxed);
+        let ch = cur_chan(self.idx);
+        let mut g = ch.lock().unwrap();
         if let Some(v) = g.queue.pop_front() {
             drop(g);
-            self.seq += 1;
-            Poll::Ready(Some(Tracked::new(v, &self.acct)))
+            Poll::Ready(Some(Tracked::new(v, &acct)))
         } else if g.done {
             drop(g);
             self.finished = true;
@@ -508,8 +551,9 @@ fn scenario(fam: Fam, prop_c02: bool, stats: Option<&Stats>) {
     // one scheduling point with several runnable threads in every execution (PCT measures the
     // schedule length on its first execution and refuses executions without any decision)
     drop(poller.ex.m.lock().unwrap());
-    let mkf = |c: usize| ChanFut { idx: c, ch: chans[c].clone(), acct: acct.clone(), finished: false };
-    let mks = |c: usize| ChanStream { idx: c, ch: chans[c].clone(), acct: acct.clone(), seq: 0, finished: false };
+    CUR.with(|c| *c.borrow_mut() = Some(Ctx { acct: acct.clone(), chans: chans.clone() }));
+    let mkf = |c: usize| ChanFut { idx: c, finished: false };
+    let mks = |c: usize| ChanStream { idx: c, finished: false };
     let mut yielded: Vec<u32> = Vec::new();
     let mut completed = true;
     match fam {
@@ -714,6 +758,8 @@ fn finish(fam: Fam, acct: &Arc<Acct>, handles: Vec<thread::JoinHandle<()>>, hand
         let d = acct.child_drops[c].load(Ordering::Relaxed);
         oracle(d == 1, "c02.mt_child_drop", || format!("{}: child {c} dropped {d} times (expected exactly once)", fam.name()));
     }
+    let b = acct.bogus.load(Ordering::Relaxed);
+    oracle(b == 0, "c02.mt_bogus_drop", || format!("{}: {b} drops of values/children that were never created (bad canary)", fam.name()));
     for v in 0..MAXV {
         let (c, d) = (acct.val_created[v].load(Ordering::Relaxed), acct.val_dropped[v].load(Ordering::Relaxed));
         oracle(c == d && c <= 1, "c02.mt_val_drop", || format!("{}: value v{v} created {c} times, dropped {d} times", fam.name()));
